@@ -374,6 +374,14 @@ func checkMain(args []string) {
 		for _, pk := range standinPkgs[*prop] {
 			t1 := time.Now()
 			rr := runDriver(*verif, *repo, pk, "", true)
+			if rr.Reproduced {
+				// a counterexample from a bounded driver counts only if it shows up again on a second run
+				// (the client driver has two timing-assisted scenarios)
+				if again := runDriver(*verif, *repo, pk, "", true); !again.Reproduced {
+					rr.Reproduced = false
+					rr.Note = "a failing input was printed once but not on the confirming run: not reported (output of the first run kept)"
+				}
+			}
 			st := map[string]any{"package": pk, "driver": rr.Driver, "command": rr.Command, "seconds": round3(time.Since(t1).Seconds()),
 				"bound": "seeded random operation histories / exhaustive short strings as stated at the top of the driver file; VERIF_REPLAY_DEEP=1 multiplies the iteration counts",
 				"label": "bounded", "counted_as_proved": false}
